@@ -474,9 +474,10 @@ fn resolve_svg_size(svg: &SvgNode, opt: &Options) -> (Result<Size, Error>, bool)
 
         Size::from_wh(w, h)
     } else {
+        // Use the lengths resolved above, so that percentages refer to the default size.
         Size::from_wh(
-            svg.convert_user_length(AId::Width, &state, def),
-            svg.convert_user_length(AId::Height, &state, def),
+            units::convert_user_length(width, *svg, AId::Width, &state),
+            units::convert_user_length(height, *svg, AId::Height, &state),
         )
     };
 
